@@ -677,7 +677,46 @@ fn build_main() -> Arc<LocustDB> {
         ingest(&db, &[Batch { table: "t".into(), len: (hi - lo) as u64, cols }]);
         if k < 2 { let d = db.clone(); let _ = with_deadline(60, move || d.force_flush()); }
     }
+    build_v(&db);
     db
+}
+
+/// Number of rows of table `v`.
+const V_ROWS: usize = 10;
+
+/// Table `v` of the slice sweep: 10 rows in three partitions (4 + 3 + 3; two flushed, one open buffer), one column per
+/// result-column KIND: x, a (ints), b (nullable ints), s (strings, three distinct values), f (floats), h (nullable floats;
+/// NULL in every row of group `z`), g (nullable ints; NULL in every row of group `z`), p (ints, ABSENT in the second
+/// partition), q (strings, present in the second partition only), n (no value in any partition), m (mixed cells).
+fn build_v(db: &Arc<LocustDB>) {
+    let x: Vec<i64> = (1..=10).collect();
+    let a: Vec<i64> = vec![3, 1, 4, 1, 5, 9, 2, 6, 5, 3];
+    let s: Vec<&str> = vec!["x", "y", "z", "x", "y", "z", "x", "x", "y", "z"];
+    let n_ = Cell::Null;
+    let b: Vec<Cell> = vec![Cell::Int(5), n_.clone(), Cell::Int(7), Cell::Int(1), n_.clone(), Cell::Int(3), Cell::Int(3), n_.clone(), Cell::Int(9), Cell::Int(2)];
+    let g: Vec<Cell> = vec![Cell::Int(2), Cell::Int(4), n_.clone(), n_.clone(), Cell::Int(6), n_.clone(), Cell::Int(8), Cell::Int(1), n_.clone(), n_.clone()];
+    let h: Vec<Cell> = vec![Cell::f(0.5), Cell::f(1.5), n_.clone(), Cell::f(2.5), n_.clone(), n_.clone(), Cell::f(-1.0), n_.clone(), Cell::f(4.0), n_.clone()];
+    let f: Vec<f64> = vec![1.5, 2.5, 0.25, 4.0, -1.0, 6.5, 7.0, 8.25, 9.0, 10.5];
+    let m: Vec<Cell> = vec![Cell::Int(1), Cell::Str("one".into()), n_.clone(), Cell::f(1.5), Cell::Int(2), Cell::Int(3), Cell::Int(4), Cell::Str("a".into()), Cell::Str("b".into()), Cell::Str("c".into())];
+    let bounds = [0usize, 4, 7, 10];
+    for k in 0..3 {
+        let (lo, hi) = (bounds[k], bounds[k + 1]);
+        let mut cols = vec![
+            ("x".to_string(), ColRep::I64(x[lo..hi].to_vec())),
+            ("a".to_string(), ColRep::I64(a[lo..hi].to_vec())),
+            ("b".to_string(), ColRep::from_cells(&b[lo..hi], 0)),
+            ("g".to_string(), ColRep::Mixed(g[lo..hi].to_vec())),
+            ("h".to_string(), ColRep::Mixed(h[lo..hi].to_vec())),
+            ("s".to_string(), ColRep::Str(s[lo..hi].iter().map(|x| x.to_string()).collect())),
+            ("f".to_string(), ColRep::Dense(f[lo..hi].to_vec())),
+            ("n".to_string(), if k == 1 { ColRep::Sparse(vec![]) } else { ColRep::Empty }),
+            ("m".to_string(), if k == 0 { ColRep::Mixed(m[lo..hi].to_vec()) } else { ColRep::from_cells(&m[lo..hi], 0) }),
+        ];
+        if k != 1 { cols.push(("p".to_string(), ColRep::I64(x[lo..hi].iter().map(|v| v * 100).collect()))); }
+        if k == 1 { cols.push(("q".to_string(), ColRep::Str(s[lo..hi].iter().map(|v| format!("q{}", v)).collect()))); }
+        ingest(db, &[Batch { table: "v".into(), len: (hi - lo) as u64, cols }]);
+        if k < 2 { let d = db.clone(); let _ = with_deadline(60, move || d.force_flush()); }
+    }
 }
 
 fn build_dbs() -> Dbs { Dbs { main: build_main(), fresh: Arc::new(LocustDB::new(&options())) } }
@@ -786,6 +825,8 @@ fn corpus(tables: &[TableRef]) -> Vec<(Parsed, &'static str)> {
         (base(a(), Lim::LimitOffset(Some(num("2")), Some((num("20"), "")), false), t.clone()), "corpus:offset-beyond-rows"),
         (base(a(), Lim::LimitOffset(Some(num("18446744073709551615")), Some((num("1"), "")), false), t.clone()), "corpus:limit-plus-offset-overflow"),
         (base(a(), Lim::LimitOffset(Some(num("0")), None, false), t.clone()), "corpus:limit-zero"),
+        // witness of the seeded change C12-null-column-slice-count (Null-typed column sliced with OFFSET > 0)
+        (base(vec![Item::Unnamed(id("a")), Item::Unnamed(id("zz"))], Lim::LimitOffset(Some(num("4")), Some((num("3"), "")), false), t.clone()), "corpus:seeded:null-column-offset"),
         // witnesses of the findings that are still open (first so that every run reports them) or were fixed by others
         (base(vec![Item::Unnamed(AE::Ident("*".into(), Some('"')))], Lim::None, t.clone()), "corpus:open:quoted-star"),
         (base(vec![Item::Unnamed(bin("=", id("a"), id("b")))], Lim::None, t.clone()), "corpus:bool-projection-merge"),
@@ -879,6 +920,121 @@ fn systematic(tables: &[TableRef]) -> Vec<(Parsed, String)> {
     out
 }
 
+/// LIMIT / OFFSET values for a result of `len` rows: 0, 1, inside, one before the end, at the end, beyond.
+fn lo_values(len: usize) -> Vec<(usize, &'static str)> {
+    let mut v: Vec<(usize, &'static str)> = vec![(0, "0"), (1, if len == 1 { "at" } else { "1" })];
+    if len / 2 > 1 { v.push((len / 2, "in")); }
+    if len > 2 { v.push((len - 1, "at-1")); }
+    if len > 1 { v.push((len, "at")); }
+    v.push((len + 3, "beyond"));
+    v
+}
+
+/// Slice sweep (seeded change C12-null-column-slice-count: `slice_box` of ONE vector type read `to` as a count): every KIND of
+/// result column — plain int / nullable int / string / float / nullable float / absent in one partition / present in one
+/// partition only / without any value / mixed cells / unknown column (Null-typed) / expression over each / constant /
+/// aggregate (also over nullable, unknown, partly absent inputs and with the in-band NULL marker in the result) / grouped
+/// aggregate / final-pass expression — alone, next to a companion column (both orders) and under ORDER BY, with LIMIT and
+/// OFFSET each in {absent, 0, 1, inside, end-1, end, beyond} relative to the length of the result.  Bounded-exhaustive
+/// over kind × (limit, offset) for the layout `companion, kind`; a reduced grid for the other layouts (all in the thorough tier).
+/// Always row format, so that the two views can be compared cell by cell.  Items: (statement, class, expected result length).
+fn slice_sweep(thorough: bool) -> Vec<(Parsed, String)> {
+    let v = TableRef { sql: "v".into(), display: Some("v".into()), name: "v".into() };
+    let un = |e: AE| Item::Unnamed(e);
+    let isnull = |e: AE| AE::IsNull(Box::new(e));
+    // (kind, select items of the kind, companion item, expected length, ORDER BY key for the ordered layout)
+    let mut kinds: Vec<(&str, Vec<AE>, AE, usize, AE)> = vec![];
+    let n = V_ROWS;
+    for (name, e) in [
+        ("int", id("a")), ("int-quoted", AE::Ident("a".into(), Some('"'))), ("nullable-int", id("b")), ("string", id("s")), ("float", id("f")),
+        ("nullable-float", id("h")), ("absent-in-one-partition", id("p")), ("in-one-partition-only", id("q")), ("no-value", id("n")), ("mixed", id("m")),
+        ("unknown", id("zz")), ("unknown-quoted", AE::Ident("A".into(), Some('"'))),
+        ("expr-int", bin("+", id("a"), num("1"))), ("expr-nullable-int", bin("+", id("b"), num("1"))), ("expr-float", bin("*", id("f"), num("2"))),
+        ("expr-bool", bin(">", id("a"), num("2"))), ("expr-isnull", isnull(id("b"))), ("expr-length", func("LENGTH", vec![id("s")])),
+        ("expr-unknown", bin("+", id("zz"), num("1"))), ("expr-unknown-isnull", isnull(id("zz"))), ("expr-absent", bin("+", id("p"), num("1"))),
+        ("expr-no-value-isnull", isnull(id("n"))), ("expr-div", bin("/", id("a"), num("2"))),
+        ("const-int", num("1")), ("const-string", AE::Str("k".into())), ("const-null", AE::Null),
+    ] { kinds.push((name, vec![e], id("x"), n, id("x"))); }
+    for (name, e) in [
+        ("agg-count", func("COUNT", vec![num("1")])), ("agg-sum", func("SUM", vec![id("a")])), ("agg-sum-nullable", func("SUM", vec![id("b")])),
+        ("agg-max-nullable", func("MAX", vec![id("b")])), ("agg-min-float", func("MIN", vec![id("f")])), ("agg-max-nullable-float", func("MAX", vec![id("h")])),
+        ("agg-count-unknown", func("COUNT", vec![id("zz")])), ("agg-sum-unknown", func("SUM", vec![id("zz")])), ("agg-max-absent", func("MAX", vec![id("p")])),
+        ("agg-sum-no-value", func("SUM", vec![id("n")])), ("agg-final-expr", bin("/", func("SUM", vec![id("a")]), func("COUNT", vec![num("1")]))),
+        ("agg-avg-nullable", func("AVG", vec![id("b")])),
+    ] { kinds.push((name, vec![e], func("COUNT", vec![id("x")]), 1, num("1"))); }
+    for (name, key, e, groups) in [
+        ("group-count", "s", func("COUNT", vec![num("1")]), 3), ("group-sum-all-null-group", "s", func("SUM", vec![id("g")]), 3),
+        ("group-max-float-all-null-group", "s", func("MAX", vec![id("h")]), 3), ("group-min-nullable", "s", func("MIN", vec![id("b")]), 3),
+        ("group-by-unknown", "zz", func("COUNT", vec![num("1")]), 1), ("group-by-no-value", "n", func("SUM", vec![id("a")]), 1),
+        ("group-sum-unknown", "s", func("SUM", vec![id("zz")]), 3), ("group-final-expr", "s", bin("+", func("SUM", vec![id("a")]), num("1")), 3),
+    ] { kinds.push((name, vec![id(key), e], func("MAX", vec![id("x")]), groups, id(key))); }
+    let mut out = vec![];
+    for (name, es, companion, len, key) in kinds {
+        let vals = lo_values(len);
+        let mut opts: Vec<Option<(usize, &'static str)>> = vec![None];
+        opts.extend(vals.iter().cloned().map(Some));
+        let kind_items: Vec<Item> = es.iter().cloned().map(un).collect();
+        let layouts: Vec<(&str, Vec<Item>, bool)> = vec![
+            ("after", { let mut v = vec![un(companion.clone())]; v.extend(kind_items.clone()); v }, false),
+            ("alone", kind_items.clone(), false),
+            ("before", { let mut v = kind_items.clone(); v.push(un(companion.clone())); v }, false),
+            ("ordered", { let mut v = vec![un(companion.clone())]; v.extend(kind_items.clone()); v }, true),
+        ];
+        for (li, (layout, items, ordered)) in layouts.into_iter().enumerate() {
+            for l in &opts {
+                for o in &opts {
+                    let full = li == 0 || thorough;
+                    // reduced grid: OFFSET 1 / inside, LIMIT absent / 1 / inside (the region where a count and an end index differ)
+                    let reduced = matches!(o, Some((_, "1")) | Some((_, "in")) | Some((_, "at"))) && matches!(l, None | Some((_, "1")) | Some((_, "in")) | Some((_, "at")));
+                    if !(full || reduced) { continue; }
+                    let mut sel = plain_sel(items.clone(), &v);
+                    if ordered { sel.order_by = vec![(key.clone(), Some(false), "")]; }
+                    let ln = l.map(|(x, _)| num(&x.to_string()));
+                    let on = o.map(|(x, _)| num(&x.to_string()));
+                    // the reduced layouts alternate between `LIMIT l OFFSET o`, `OFFSET o LIMIT l` and `LIMIT o, l`
+                    sel.limit = match (ln, on) {
+                        (None, None) => Lim::None,
+                        (Some(l), Some(o)) if li == 2 => Lim::Comma(o, l),
+                        (l, o) => Lim::LimitOffset(l, o.map(|o| (o, if li == 1 { " ROWS" } else { "" })), li == 3),
+                    };
+                    let lc = l.map(|(_, c)| c).unwrap_or("none");
+                    let oc = o.map(|(_, c)| c).unwrap_or("none");
+                    out.push((Parsed::Stmts(vec![Stmt::Select(sel)], String::new()), format!("sweep:{}:{}:l-{}:o-{}", name, layout, lc, oc)));
+                }
+            }
+        }
+    }
+    out
+}
+
+/// Run the sweep statements on `threads` private copies of the main database (they are read-only); an unhealthy answer
+/// (panic / hang / Canceled) replaces that copy.  Results in input order.
+fn run_parallel(sqls: Vec<String>, threads: usize) -> Vec<QOut> {
+    let n = sqls.len();
+    let sqls = Arc::new(sqls);
+    let mut handles = vec![];
+    for t in 0..threads {
+        let sqls = sqls.clone();
+        handles.push(std::thread::spawn(move || {
+            let mut db = build_main();
+            let mut res = vec![];
+            let mut hangs = 0;
+            let mut i = t;
+            while i < sqls.len() {
+                let out = if hangs < 2 { query_full(&db, &sqls[i], true, DEADLINE_S) } else { QOut::Hang };
+                if matches!(out, QOut::Hang) { hangs += 1; }
+                if !healthy(&out) { db = build_main(); }
+                res.push((i, out));
+                i += threads;
+            }
+            res
+        }));
+    }
+    let mut out: Vec<Option<QOut>> = (0..n).map(|_| None).collect();
+    for h in handles { if let Ok(r) = h.join() { for (i, o) in r { out[i] = Some(o); } } }
+    out.into_iter().map(|o| o.unwrap_or(QOut::Panic("sweep worker died".into()))).collect()
+}
+
 fn mutate(rng: &mut Rng, sql: &str) -> String {
     let mut b: Vec<u8> = sql.as_bytes().to_vec();
     const POOL: &[u8] = b" \t\n'\"`();,.*+-/%<>=!|&^~@#$?:[]{}\\_0123456789eEaAsStTxXlL\x00\x7f\xc3\xa9\xe6\x97\xa5\xff";
@@ -954,6 +1110,30 @@ fn main() {
             if !healthy(&out) { broken = true; }
         }
         if broken { dbs = build_dbs(); cat_cache.clear(); }
+    }
+
+    // ---- slice sweep: result-column kind × LIMIT × OFFSET on table `v` (run only; no random numbers consumed)
+    {
+        let sweep = slice_sweep(args.thorough());
+        let mut srng = Rng::new(7);
+        let sqls: Vec<String> = sweep.iter().map(|(p, _)| p.sql(&mut srng)).collect();
+        let cat = catalog(&dbs.main, "v");
+        let outs = run_parallel(sqls.clone(), 6);
+        let _ = take_panic();
+        for (((p, class), sql), out) in sweep.iter().zip(&sqls).zip(outs) {
+            // an unhealthy answer is asked for again on this thread's database so that the panic message is attributed
+            let out = if healthy(&out) || hangs >= MAX_HANGS { out } else {
+                let _ = take_panic();
+                let o = query_full(&dbs.main, sql, true, DEADLINE_S);
+                if matches!(o, QOut::Hang) { hangs += 1; }
+                o
+            };
+            let (obs, canon) = observe(&out);
+            let kind = match &out { QOut::Ok { .. } => "ok".to_string(), o => o.tok() };
+            let line = format!("run {} {} {} {} {} {} {} ## {}", cat.exists as u8, cat.meta, cat.parts, cat.rows, toks(&cat.columns, |n| hexs(n)), 1, p.toks(), obs);
+            cases.push(&format!("run:main:table:{}:{}", class, kind), &line, &canon, &format!("{} | {}", sql, out.detail()));
+            if !healthy(&out) { dbs = build_dbs(); }
+        }
     }
 
     // ---- byte-level mutations of valid statements (oracle only)
